@@ -23,6 +23,24 @@ def _wav_samples(bits, n, rng):
   return [rng.choice(pool) if rng.random() < 0.4 else rng.randrange(lo, hi + 1) for _ in range(n)]
 
 
+def max_rate(bits, ch):
+  """the largest sample rate a wave header can hold: rate and rate * channels * width are 32-bit fields"""
+  return ((1 << 32) - 1) // (ch * (bits // 8))
+
+
+def wav_rate(rng, bits, ch):
+  """header sample rates: the usual ones, the low end of the range (1..19 and the next few), the high end"""
+  r = rng.random()
+  if r < 0.35:
+    return rng.choice([8000, 11025, 22050, 44100, 48000, 96000])
+  if r < 0.7:
+    return rng.randrange(1, 20)
+  if r < 0.82:
+    return rng.choice([20, 21, 39, 40, 41, 50, 99, 100])
+  m = max_rate(bits, ch)
+  return rng.choice([m, m - 1, m // 2, (1 << 31) // (ch * (bits // 8)), 1 << 24, 1000003])
+
+
 def _schedule(kind, ns, totals, rng):
   """ns streams holding totals[i] samples each; 'over' = pulls beyond the end (StopIteration seen, maybe twice)"""
   if kind == "alt":                      # zip / a + b: one sample of each in turn, until all have stopped
@@ -49,7 +67,7 @@ def gen_wavhist(tier, rng):
           for ns in (2, 3):
             for sk in kinds:
               nfiles = 1 if same else ns
-              files = [{"bits": bits, "channels": ch, "rate": rng.choice([8000, 44100, 48000, 11025]),
+              files = [{"bits": bits, "channels": ch, "rate": wav_rate(rng, bits, ch),
                         "samples": _wav_samples(bits, ch * rng.choice([0, 1, 2, 3, 5, 8]), rng)} for _ in range(nfiles)]
               streams = [{"file": 0 if same else i, "keep": rng.random() < 0.6} for i in range(ns)]
               totals = [len(files[s["file"]]["samples"]) for s in streams]
@@ -62,7 +80,7 @@ def gen_wavhist(tier, rng):
       files = []
       for i in range(ns):
         bits = rng.choice([8, 16, 24, 24, 32]); ch = rng.choice([1, 2, 2])
-        files.append({"bits": bits, "channels": ch, "rate": rng.choice([8000, 22050, 96000]),
+        files.append({"bits": bits, "channels": ch, "rate": wav_rate(rng, bits, ch),
                       "samples": _wav_samples(bits, ch * rng.choice([0, 1, 1, 2, 4, 7]), rng)})
       streams = [{"file": i, "keep": rng.random() < 0.6} for i in range(ns)]
       totals = [len(f["samples"]) for f in files]
